@@ -154,7 +154,8 @@ func checkC05(c *an.Ctx) {
 		if loop == nil {
 			c.Und("C05.1", an.Short(bp)+":stage-loop", bp.Pos(), "buildPipeline does not range over its stage definitions")
 		} else {
-			ex := &an.Explorer{P: p, NoReturn: noReturn}
+			ex := &an.Explorer{P: p, NoReturn: noReturn, MaxDepth: 3,
+				Inline: func(f *ssa.Function) bool { return an.Outer(f).Pkg == bp.Pkg && f != bp }}
 			loop.Bound(ex)
 			ex.Effect = func(in ssa.Instruction, st *an.State) string {
 				if call, ok := in.(*ssa.Call); ok {
